@@ -34,13 +34,12 @@ def register(reg):
                  note='every failure of bit_stream.read leaves as BitReadError (D-2)'))
     read_fail = 'rpos(self) + %s > rlen(self)'
     add(Contract(M + 'BitStringBitReader.read_uint', {'self': R, 'nbits': INT}, returns=INT,
-                 requires=['nbits >= 1'],
                  modifies=['self.bit_stream.pos'],
                  ensures=['result == U(rbits(self), old(rpos(self)), nbits)',
                           'rpos(self) == old(rpos(self)) + nbits',
                           '0 <= result', 'implies(nbits <= 64, result < pow2(nbits))'],
-                 raises={'BitReadError': read_fail % 'nbits'},
-                 must_raise=[('BitReadError', read_fail % 'nbits')],
+                 raises={'BitReadError': 'nbits <= 0 or ' + read_fail % 'nbits'},
+                 must_raise=[('BitReadError', 'nbits <= 0 or ' + read_fail % 'nbits')],
                  serves=['C19', 'C01', 'C12']))
     add(Contract(M + 'BitStringBitReader.read_bool', {'self': R}, returns=BOOL,
                  modifies=['self.bit_stream.pos'],
@@ -50,29 +49,27 @@ def register(reg):
                  must_raise=[('BitReadError', read_fail % '1')],
                  serves=['C19', 'C12']))
     add(Contract(M + 'BitStringBitReader.read_bytes', {'self': R, 'nbytes': INT}, returns=BYTES,
-                 requires=['nbytes >= 0'],
                  modifies=['self.bit_stream.pos'],
                  ensures=['result == Bst(rbits(self), old(rpos(self)), nbytes)', 'len(result) == nbytes',
                           'rpos(self) == old(rpos(self)) + 8 * nbytes'],
-                 raises={'BitReadError': read_fail % '8 * nbytes'},
-                 must_raise=[('BitReadError', read_fail % '8 * nbytes')],
+                 raises={'BitReadError': 'nbytes < 0 or ' + read_fail % '8 * nbytes'},
+                 must_raise=[('BitReadError', 'nbytes < 0 or ' + read_fail % '8 * nbytes')],
                  serves=['C19', 'C01', 'C12']))
     add(Contract(M + 'BitStringBitReader.read_bin', {'self': R, 'nbits': INT}, returns=STR,
-                 requires=['nbits >= 0'],
                  modifies=['self.bit_stream.pos'],
                  ensures=['result == Bin(rbits(self), old(rpos(self)), nbits)', 'len(result) == nbits',
                           'rpos(self) == old(rpos(self)) + nbits'],
-                 raises={'BitReadError': read_fail % 'nbits'},
-                 must_raise=[('BitReadError', read_fail % 'nbits')],
+                 raises={'BitReadError': 'nbits < 0 or ' + read_fail % 'nbits'},
+                 must_raise=[('BitReadError', 'nbits < 0 or ' + read_fail % 'nbits')],
+                 note='a negative width (section declared shorter than its fixed part, D-8) is a BitReadError, not a ValueError',
                  serves=['C19', 'C04', 'C12']))
     add(Contract(M + 'BitStringBitReader.read_int', {'self': R, 'nbits': INT}, returns=INT,
-                 requires=['nbits >= 2'],
                  modifies=['self.bit_stream.pos'],
                  ensures=['result == (-1 if U(rbits(self), old(rpos(self)), 1) == 1 else 1) * '
                           'U(rbits(self), old(rpos(self)) + 1, nbits - 1)',
                           'rpos(self) == old(rpos(self)) + nbits'],
-                 raises={'BitReadError': read_fail % 'nbits'},
-                 must_raise=[('BitReadError', read_fail % 'nbits')],
+                 raises={'BitReadError': 'nbits < 2 or ' + read_fail % 'nbits'},
+                 must_raise=[('BitReadError', 'nbits < 2 or ' + read_fail % 'nbits')],
                  serves=['C19', 'C01']))
     add(Contract(M + 'BitReader.read_uint_or_none', {'self': R, 'nbits': INT}, returns=VAL,
                  requires=['1 <= nbits <= 64'],
@@ -85,9 +82,7 @@ def register(reg):
                  serves=['C19', 'C01']))
     add(Contract(M + 'BitReader.read', {'self': R, 'data_type': STR, 'nbits': INT}, returns=VAL,
                  requires=["data_type == 'uint' or data_type == 'bytes' or data_type == 'bool' or data_type == 'bin' "
-                           "or data_type == 'int'",
-                           "implies(data_type == 'uint', nbits >= 1)", "implies(data_type == 'int', nbits >= 2)",
-                           "implies(data_type == 'bytes' or data_type == 'bin', nbits >= 0)"],
+                           "or data_type == 'int'"],
                  modifies=['self.bit_stream.pos'],
                  cases=[('uint', "data_type == 'uint'",
                          ['is_int(result) and ival(result) == U(rbits(self), old(rpos(self)), nbits)',
@@ -101,6 +96,7 @@ def register(reg):
                          ['is_txt(result) and tval(result) == Bin(rbits(self), old(rpos(self)), nbits)',
                           'rpos(self) == old(rpos(self)) + nbits']),
                         ('int', "data_type == 'int'", ['rpos(self) == old(rpos(self)) + nbits'])],
+                 ensures=['rpos(self) >= old(rpos(self))'],
                  raises={'BitReadError': None},
                  serves=['C19', 'C04']))
     # ------------------------------------------------------------------ writer
